@@ -1,6 +1,7 @@
 package c03
 
 import (
+	"bytes"
 	"context"
 	"fmt"
 	"sync"
@@ -9,6 +10,10 @@ import (
 
 	"github.com/plgd-dev/go-coap/v3/message"
 	"github.com/plgd-dev/go-coap/v3/message/codes"
+	"github.com/plgd-dev/go-coap/v3/message/pool"
+	"github.com/plgd-dev/go-coap/v3/net/blockwise"
+	"github.com/plgd-dev/go-coap/v3/net/responsewriter"
+	tcpclient "github.com/plgd-dev/go-coap/v3/tcp/client"
 	udpclient "github.com/plgd-dev/go-coap/v3/udp/client"
 
 	"verifharness/internal/conns"
@@ -20,17 +25,18 @@ import (
 // answers it with a separate confirmable response built from the request's own path; every caller releases its response
 // the moment it has looked at it (as the API documentation asks).
 type StressRec struct {
-	Op     string `json:"op"` // stress
-	Burst  int    `json:"burst"`
-	Calls  int    `json:"calls"`
-	Wrong  int    `json:"wrong"`  // calls that returned successfully with a foreign / empty token or foreign content
-	Failed int    `json:"failed"` // calls that returned an error
-	GaveUp int    `json:"gaveup"` // calls whose context was cancelled at the moment their response arrived (they may fail: not counted in Failed)
-	First  string `json:"first"`
+	Op        string `json:"op"` // stress
+	Transport string `json:"transport"`
+	Burst     int    `json:"burst"`
+	Calls     int    `json:"calls"`
+	Wrong     int    `json:"wrong"`  // calls that returned successfully with a foreign / empty token or foreign content
+	Failed    int    `json:"failed"` // calls that returned an error
+	GaveUp    int    `json:"gaveup"` // calls whose context was cancelled at the moment their response arrived (they may fail: not counted in Failed)
+	First     string `json:"first"`
 }
 
 func stressBurst(burst int, callers int, d time.Duration) StressRec {
-	r := StressRec{Op: "stress", Burst: burst}
+	r := StressRec{Op: "stress", Burst: burst, Transport: "udp"}
 	u := conns.NewUDP(func(cfg *udpclient.Config) {
 		cfg.TransmissionNStart = uint32(callers + 1)
 		cfg.LimitClientParallelRequests = int64(callers + 1)
@@ -129,11 +135,131 @@ func stressBurst(burst int, callers int, d time.Duration) StressRec {
 	return r
 }
 
-// Stress runs n bursts.
+// stressTCP: the same between two real tcp connections that have announced Block-Wise-Transfer to each other, joined by
+// the driver's relay; every fourth request asks for a body that needs block-wise transfer (the block-wise layer then
+// replaces the response writer's message on both sides).
+func stressTCP(burst int, callers int, d time.Duration) StressRec {
+	r := StressRec{Op: "stress", Burst: burst, Transport: "tcp"}
+	body := func(p string) []byte {
+		b := []byte("content-for-" + p + ";")
+		for len(b) < 100 {
+			b = append(b, b...)
+		}
+		return b[:100]
+	}
+	mk := func(handler tcpclient.HandlerFunc) *conns.TCP {
+		return conns.NewTCP(func(cfg *tcpclient.Config) {
+			cfg.BlockwiseEnable = true
+			cfg.BlockwiseSZX = blockwise.SZX32
+			cfg.BlockwiseTransferTimeout = 2 * time.Second
+			cfg.LimitClientParallelRequests = int64(callers + 1)
+			cfg.LimitClientEndpointParallelRequests = int64(callers + 1)
+			if handler != nil {
+				cfg.Handler = handler
+			}
+		})
+	}
+	S := mk(func(w *responsewriter.ResponseWriter[*tcpclient.Conn], q *pool.Message) {
+		p, _ := q.Path()
+		if len(p) > 4 && p[:4] == "/big" {
+			_ = w.SetResponse(codes.Content, message.AppOctets, bytes.NewReader(body(p)))
+			return
+		}
+		_ = w.SetResponse(codes.Content, message.TextPlain, bytes.NewReader([]byte("content-for-"+p)))
+	})
+	C := mk(nil)
+	defer S.Close()
+	defer C.Close()
+	csm := conns.Frame(int(codes.CSM), []byte{1}, message.Options{{ID: message.TCPBlockWiseTransfer, Value: []byte{}}}, nil)
+	C.Feed(csm)
+	S.Feed(csm)
+	offC, offS := len(C.Stream.Written(0)), len(S.Stream.Written(0))
+	stop := make(chan struct{})
+	var rw sync.WaitGroup
+	rw.Add(1)
+	go func() {
+		defer rw.Done()
+		move := func(from, to *conns.TCP, off *int) bool {
+			b := from.Stream.Written(*off)
+			_, rest := conns.Frames(b)
+			m := len(b) - len(rest)
+			if m == 0 {
+				return false
+			}
+			to.Stream.Feed(b[:m])
+			*off += m
+			return true
+		}
+		for {
+			select {
+			case <-stop:
+				return
+			default:
+			}
+			a := move(C, S, &offC)
+			b := move(S, C, &offS)
+			if !a && !b {
+				time.Sleep(20 * time.Microsecond)
+			}
+		}
+	}()
+	var calls, wrong, failed atomic.Int64
+	var firstMu sync.Mutex
+	deadline := time.Now().Add(d)
+	var wg sync.WaitGroup
+	for c := 0; c < callers; c++ {
+		wg.Add(1)
+		go func(c int) {
+			defer wg.Done()
+			defer func() {
+				if x := recover(); x != nil {
+					panic(x) // a crash inside the library is a verdict of its own (NoCrash)
+				}
+			}()
+			for k := 0; time.Now().Before(deadline); k++ {
+				path := fmt.Sprintf("/s%d/%d", c, k)
+				want := []byte("content-for-" + path)
+				if k%4 == 3 {
+					path = fmt.Sprintf("/big%d/%d", c, k)
+					want = body(path)
+				}
+				ctx, cancel := context.WithTimeout(context.Background(), 2*time.Second)
+				resp, err := C.CC.Get(ctx, path)
+				calls.Add(1)
+				if err != nil {
+					failed.Add(1)
+					cancel()
+					continue
+				}
+				b, _ := resp.ReadBody()
+				if !bytes.Equal(b, want) {
+					wrong.Add(1)
+					firstMu.Lock()
+					if r.First == "" {
+						r.First = fmt.Sprintf("%s got body=%q", path, b)
+					}
+					firstMu.Unlock()
+				}
+				C.CC.ReleaseMessage(resp)
+				cancel()
+			}
+		}(c)
+	}
+	wg.Wait()
+	close(stop)
+	rw.Wait()
+	r.Calls, r.Wrong, r.Failed = int(calls.Load()), int(wrong.Load()), int(failed.Load())
+	return r
+}
+
+// Stress runs n bursts on udp and n/2 on tcp.
 func Stress(out string, n int) {
 	w := rec.Create(out)
 	defer w.Close()
 	for b := 0; b < n; b++ {
 		w.Put(stressBurst(b+1, 8, 150*time.Millisecond))
+	}
+	for b := 0; b < (n+1)/2; b++ {
+		w.Put(stressTCP(n+b+1, 6, 150*time.Millisecond))
 	}
 }
